@@ -41,6 +41,28 @@ type Job struct {
 	MarkTypes     map[string]gdbi.DataType
 	StepChecksums []string
 	dir           string // directory holding the job's results and status files
+	// lock guards Status, which the spooling goroutine updates while requests read it
+	lock sync.Mutex
+}
+
+// status returns a copy of the job's status
+func (job *Job) status() *gripql.JobStatus {
+	job.lock.Lock()
+	defer job.lock.Unlock()
+	return &gripql.JobStatus{Id: job.Status.Id, Graph: job.Status.Graph, State: job.Status.State,
+		Count: job.Status.Count, Query: job.Status.Query, Timestamp: job.Status.Timestamp}
+}
+
+func (job *Job) state() gripql.JobState {
+	job.lock.Lock()
+	defer job.lock.Unlock()
+	return job.Status.State
+}
+
+func (job *Job) setState(s gripql.JobState) {
+	job.lock.Lock()
+	job.Status.State = s
+	job.lock.Unlock()
 }
 
 // jobKey identifies a job by the exact graph name and job id.
@@ -124,7 +146,7 @@ func (fs *FSResults) Search(graph string, Query []*gripql.GraphStatement) (chan 
 			vJob := value.(*Job)
 			if vJob.Status.Graph == graph {
 				if JobMatch(qcs, vJob.StepChecksums) {
-					out <- &vJob.Status
+					out <- vJob.status()
 				}
 			}
 			return true
@@ -163,13 +185,15 @@ func (fs *FSResults) Spool(graph string, stream *Stream) (string, error) {
 	fs.jobs.Store(jobKey(graph, jobName), job)
 	tbStream := MarshalStream(stream.Pipe, 4) //TODO: make worker count configurable
 	go func() {
-		job.Status.State = gripql.JobState_RUNNING
+		job.setState(gripql.JobState_RUNNING)
 		log.Printf("Starting Job: %#v", job)
 		defer resultFile.Close()
 		for i := range tbStream {
 			resultFile.Write(i)
 			resultFile.Write([]byte("\n"))
+			job.lock.Lock()
 			job.Status.Count += 1
+			job.lock.Unlock()
 		}
 		statusPath := filepath.Join(spoolDir, "status")
 		statusFile, err := os.Create(statusPath)
@@ -188,10 +212,10 @@ func (fs *FSResults) Spool(graph string, stream *Stream) (string, error) {
 				statusFile.Write([]byte(fmt.Sprintf("%s\n", out)))
 			}
 			statusFile.Close()
-			job.Status.State = gripql.JobState_COMPLETE
+			job.setState(gripql.JobState_COMPLETE)
 			log.Printf("Job Done: %s (%d results)", jobName, job.Status.Count)
 		} else {
-			job.Status.State = gripql.JobState_ERROR
+			job.setState(gripql.JobState_ERROR)
 			log.Printf("Job Error: %s %s", jobName, err)
 		}
 	}()
@@ -201,7 +225,7 @@ func (fs *FSResults) Spool(graph string, stream *Stream) (string, error) {
 func (fs *FSResults) Stream(ctx context.Context, graph, id string) (*Stream, error) {
 	if v, ok := fs.jobs.Load(jobKey(graph, id)); ok {
 		vJob := v.(*Job)
-		if vJob.Status.State == gripql.JobState_COMPLETE {
+		if vJob.state() == gripql.JobState_COMPLETE {
 			resultFile := filepath.Join(vJob.dir, "results")
 			results, err := os.Open(resultFile)
 			if err != nil {
@@ -239,7 +263,7 @@ func (fs *FSResults) Stream(ctx context.Context, graph, id string) (*Stream, err
 func (fs *FSResults) Delete(graph, id string) error {
 	if v, ok := fs.jobs.Load(jobKey(graph, id)); ok {
 		vJob := v.(*Job)
-		if vJob.Status.State == gripql.JobState_RUNNING || vJob.Status.State == gripql.JobState_QUEUED {
+		if st := vJob.state(); st == gripql.JobState_RUNNING || st == gripql.JobState_QUEUED {
 			return fmt.Errorf("Job cancel not yet implemented")
 		}
 		fs.jobs.Delete(jobKey(graph, id))
@@ -251,8 +275,7 @@ func (fs *FSResults) Delete(graph, id string) error {
 func (fs *FSResults) Status(graph, id string) (*gripql.JobStatus, error) {
 	if v, ok := fs.jobs.Load(jobKey(graph, id)); ok {
 		vJob := v.(*Job)
-		a := vJob.Status
-		return &a, nil
+		return vJob.status(), nil
 	}
 	return nil, fmt.Errorf("Job Not Found")
 }
